@@ -11,7 +11,7 @@ from vlib import log
 TRUSTED_BASE_COMMON = [
     "Coq 8.16.1 kernel incl. vm_compute (no native_compute)",
     "tools/gen_consts.py (translator: constants/flag bits/CRC catalogue parameters from /repo/src and the vendored crc-catalog)",
-    "tools/gen_tables.py + harness/src/tables.rs (translator, part 2: complete behaviour tables of six finite-domain functions of the compiled crate -> Gen/Tbl_<NAME>.v; Proofs/Tie*.v re-proves model = table on every run)",
+    "tools/gen_tables.py + harness/src/tables.rs (translator, part 2: complete behaviour tables of the compiled crate's finite-domain functions, observed at property level -> Gen/Tbl_<NAME>.v; Proofs/Tie*.v re-proves model = table on every run)",
     "extraction: ExtrOcamlBasic only, no Extract Constant / Extract Inductive of our own; OCaml 4.13.1 ocamlopt",
     "ocaml/modelrun.ml (char <-> extracted byte conversion, line loop)",
     "harness/ (Rust, case-line parsing/printing, catch_unwind) built against /repo with --cfg bp7_verif",
@@ -337,6 +337,7 @@ def run_property(P, pid, tier, seed, replay):
             "theorems": P.THEOREMS,
             "print_assumptions": {k: v.strip()[:300] for k, v in pa.items()},
             "proof_files": detail,
+            "exhaustive_tables": sorted(os.path.basename(d)[4:-2] for d in deps if os.path.basename(d).startswith("Tbl_")),
             "coqchk": coqchk_out,
             "evaluations": evaluations, "distinct_nontrivial": len(nontrivial),
             "rule": P.RULE, "samples": samples,
